@@ -113,6 +113,9 @@ template <class BAImg> struct BitAlignedHolder
 };
 
 template <class H> static const char* holder_name();
+template <class P> struct is_plain_pixel : std::false_type {};
+// (the mutable binding constructor takes pixel<T, layout<ColorSpace, Mapping>>&: layouts that merely derive from layout<>, like devicen_layout_t, do not bind)
+template <class T, class CS, class M> struct is_plain_pixel<gil::pixel<T, gil::layout<CS, M>>> : std::integral_constant<bool, std::is_arithmetic<T>::value || std::is_same<T, gil::float32_t>::value> {};
 
 // ------------------------------------------------------------------------------------------------ the checks for one ordered pair (S holder, D holder)
 template <class SH, class DH> static void check_pair(u64 seed, int rounds, u64& n, Case& cur)
@@ -170,6 +173,30 @@ template <class SH, class DH> static void check_pair(u64 seed, int rounds, u64& 
             DV v(s);
             for (int c = 0; c < N; ++c) VCHECK(color_get(v, c) == sv[c], "value constructed from src: colour", c, "is", color_get(v, c), "but src has", sv[c]);
             VCHECK(v == s, "value constructed from src != src");
+        }
+        // a planar reference proxy bound to a mutable interleaved pixel (the proxy's own channel order is the colour space's):
+        // its colours are the pixel's colours by name, and a write through it changes exactly that colour of the pixel
+        if constexpr (is_plain_pixel<SP>::value && std::is_lvalue_reference<decltype(sh.ref())>::value)
+        {
+            using ch_t = typename gil::channel_type<SP>::type;
+            using pref_t = gil::planar_pixel_reference<ch_t&, cs_t<SP>>;
+            using cpref_t = gil::planar_pixel_reference<ch_t const&, cs_t<SP>>;
+            pref_t pr(s);
+            cpref_t cpr(s);
+            for (int c = 0; c < N; ++c)
+            {
+                VCHECK(color_get(pr, c) == sv[c], "planar reference bound to a", SH::kind(), "pixel: colour", c, "reads", color_get(pr, c), "but the pixel has", sv[c]);
+                VCHECK(color_get(cpr, c) == sv[c], "const planar reference bound to a pixel: colour", c);
+            }
+            VCHECK(pr == s && cpr == s, "planar reference bound to a pixel compares unequal to it");
+            for (int c = 0; c < N; ++c)
+            {
+                double old = sv[c];
+                double nv = old == color_max(s, c) ? color_min(s, c) : color_max(s, c);
+                color_set(pr, c, nv);
+                for (int e = 0; e < N; ++e) VCHECK(color_get(s, e) == (e == c ? nv : sv[e]), "writing colour", c, "through a planar reference bound to a pixel changed colour", e, "of the pixel to", color_get(s, e));
+                color_set(pr, c, old);
+            }
         }
         // static_copy / static_equal / static_fill / static_transform / static_for_each pair by colour
         for (int c = 0; c < N; ++c) color_set(d, c, dv[c]);
